@@ -14,14 +14,19 @@
            [model_agrees]: Model/BlobReader.v predicts whether the open fails, the descriptor,
            the bytes relayed and whether the stream ended cleanly.
            [obs_ok]: a clean end means the bytes have the descriptor's size and digest (for a
-           range read: are not longer than the described blob).
+           range read: are not longer than the described blob), and that the body did not
+           report a failure (a transport error, io.ErrUnexpectedEOF for a short body).
    CRange  one ranged blob GET on the wire: the Range header, and the status / headers / body
            the server answered for a blob the harness knows.
            [model_agrees]: the header is the one Model/RangeCodec.v writes for (o0, o1) and
            the answer is the one server_blob_get computes.
            [obs_ok]: a 206 answer to the client's header for (o0, o1) carries exactly bytes
            [o0, o1') of the blob, a Content-Range "bytes o0-(o1'-1)/len" and a Content-Length
-           equal to the body's length. *)
+           equal to the body's length.
+   CFault  one read of a content the real registry holds, through one or two client hops, with a
+           fault injected into the response body on the innermost hop.
+           [model_agrees] = [obs_ok]: a clean end means exactly the content (the slice) under the
+           whole content's descriptor; no panic. *)
 From Coq Require Import String.
 From OCI Require Export Obs.MemObs Model.IntegrityStack.
 From OCI Require Import Model.RangeCodec Proofs.RangeCodec Proofs.Integrity Proofs.BlobReader Proofs.IntegrityStack.
@@ -77,7 +82,15 @@ Inductive case :=
      C01_get_tag / C01_get_blob_range / C01_histories_through_hops, which hold for every length: a
      well-formed push succeeds and every read returns the pushed bytes under the whole
      content's descriptor. *)
-  | CBig (stack path : N) (len : Z) (pushed : bytes) (push_ok : bool) (reads : list bigread).
+  | CBig (stack path : N) (len : Z) (pushed : bytes) (push_ok : bool) (reads : list bigread)
+  (* One read of a content the real ocimem holds behind a real ociserver, through [hops] clients
+     (1: ociclient; 2: ociclient -> ociserver -> ociclient), with a fault injected into the body
+     of the GET response on the INNERMOST hop (cut short by [at_] bytes and reported the way
+     net/http reports a body shorter than its Content-Length, or with another error, or with a
+     clean EOF; padded; a byte flipped; replaced): class [fault], parameter [at_], [tog] = the
+     error came together with the last bytes.  Headers are the real server's.  No model: the
+     specification is evaluated on the observation alone. *)
+  | CFault (hops kind : N) (o0 o1 : Z) (dig content : bytes) (fault : N) (at_ : Z) (tog : bool) (obs : robs).
 
 (* ---------- oracle instantiation ---------- *)
 
@@ -148,6 +161,11 @@ Definition read_agrees (m : R err (desc * drained)) (o : robs) : bool :=
   | _, _ => false
   end.
 
+(* the body reported a failure (anything but nil / io.EOF: a transport error, io.ErrUnexpectedEOF
+   for a body shorter than its Content-Length) as its first error result *)
+Definition script_failed (body : list (bytes * N)) : bool :=
+  match snd (flatten (script_of body)) with RFail => true | _ => false end.
+
 (* the reader does not verify: a range read proper *)
 Definition unverified (kind : N) (o0 o1 : Z) : bool :=
   match kind with
@@ -177,6 +195,23 @@ Definition range_agrees (m : sresp) (o : wobs) : bool :=
   | _, _ => false
   end.
 
+(* ---------- CFault ---------- *)
+
+(* a read that ends cleanly returned exactly the content (the slice [o0, o1') for a range read)
+   under the descriptor of the whole content; a fault may make the read fail, never panic *)
+Definition fault_ok (kind : N) (o0 o1 : Z) (dig content : bytes) (obs : robs) : bool :=
+  match obs with
+  | RDone de data true =>
+      (d_size de =? blen content) && beqb (d_digest de) dig
+      && beqb data (match kind with
+                    | 0%N | 1%N | 2%N => content
+                    | _ => slice content o0 (clamp (blen content) o1)
+                    end)
+  | RDone _ _ false => true
+  | ROpenErr => true
+  | ROpenPanic => false
+  end.
+
 (* ---------- the two predicates ---------- *)
 
 Definition model_agrees (c : case) : bool :=
@@ -196,6 +231,7 @@ Definition model_agrees (c : case) : bool :=
          end
       && range_agrees (range_model hdr rd blob) obs
   | CBig _ _ len pushed push_ok reads => push_ok && big_ok len pushed push_ok reads
+  | CFault _ kind o0 o1 dig content _ _ _ obs => fault_ok kind o0 o1 dig content obs
   end.
 
 Definition obs_ok (c : case) : bool :=
@@ -206,8 +242,10 @@ Definition obs_ok (c : case) : bool :=
   | CRead kind o0 o1 known resp body head orc h512 obs =>
       match obs with
       | RDone de data true =>
-          if unverified kind o0 o1 then blen data <=? d_size de
-          else (blen data =? d_size de) && beqb (hashd_of orc h512 (alg_text (d_digest de)) data) (d_digest de)
+          (* a body that failed never ends cleanly, verified or not *)
+          negb (script_failed body)
+          && (if unverified kind o0 o1 then blen data <=? d_size de
+              else (blen data =? d_size de) && beqb (hashd_of orc h512 (alg_text (d_digest de)) data) (d_digest de))
       | _ => true
       end
   | CRange src hdr rd blob obs =>
@@ -228,6 +266,7 @@ Definition obs_ok (c : case) : bool :=
       | _, _, _ => true
       end
   | CBig _ _ len pushed push_ok reads => big_ok len pushed push_ok reads
+  | CFault _ kind o0 o1 dig content _ _ _ obs => fault_ok kind o0 o1 dig content obs
   end.
 
 (* a case says something when a read returned data or a push was refused; when a reader was
@@ -248,6 +287,7 @@ Definition nontrivial (c : case) : bool :=
   | CRead _ _ _ _ _ _ _ _ _ obs => match obs with RDone _ _ _ => true | _ => false end
   | CRange _ _ _ blob obs => match blob, obs with Some _, _ => true | _, _ => false end
   | CBig _ _ _ _ _ reads => existsb br_ok reads
+  | CFault _ _ _ _ _ _ _ _ _ obs => match obs with RDone _ _ _ => true | _ => false end
   end.
 
 (* ---------- soundness of the correspondence ---------- *)
@@ -336,6 +376,51 @@ Proof.
   destruct (blobreader_sound hashd de r sc data Hr Hd) as [A B]. rewrite (br_alg_text _ _ _ Hr) in B. auto.
 Qed.
 
+Lemma drain_clean_flatten hashd sc : forall r data out,
+  drain hashd r sc data = DClean out -> snd (flatten sc) = REOF.
+Proof.
+  induction sc as [|[chunk e] rest IH]; intros r data out; cbn [drain]; [discriminate|].
+  destruct (br_read hashd r chunk e) as [r' res] eqn:ER. destruct e; cbn [flatten].
+  - destruct (flatten rest) as [d e'] eqn:EF. cbn [snd] in *.
+    unfold br_read in ER. destruct (_ >? _) in ER; injection ER as _ <-; [discriminate|].
+    intros H. exact (IH _ _ _ H).
+  - reflexivity.
+  - unfold br_read in ER. injection ER as _ <-. discriminate.
+Qed.
+
+Lemma client_read_no_fail vref hashd kind known resp body head de data :
+  client_read vref hashd kind known resp body head = Ok (de, DClean data) ->
+  snd (flatten body) <> RFail.
+Proof.
+  unfold client_read. destruct (negb _); [discriminate|].
+  destruct (descriptor_from_response _ _ _ _ _) as [de0|]; [|discriminate].
+  assert (Hd : forall (r : R err br) (d0 : desc),
+            (do r' <- r; Ok (d0, drain hashd r' body [])) = Ok (de, DClean data) -> snd (flatten body) <> RFail).
+  { intros r d0. destruct r as [r'| | |]; cbn; try discriminate. intros H. injection H as _ H.
+    rewrite (drain_clean_flatten _ _ _ _ _ H). discriminate. }
+  destruct (d_digest de0) eqn:ED; [|apply Hd].
+  destruct kind; [discriminate|]. destruct (d_size de0 <=? IN_MEM_THRESHOLD).
+  - destruct (flatten body) as [dt e]. destruct e; cbn [snd]; try (intros _ HH; discriminate HH).
+    destruct (_ <=? _); intros HH; discriminate HH.
+  - destruct head as [hr|]; [|discriminate]. destruct (negb _); [discriminate|].
+    destruct (descriptor_from_response _ _ _ _ _) as [de1|]; [|discriminate]. apply Hd.
+Qed.
+
+Lemma read_model_no_fail kind o0 o1 known resp body head orc h512 de data :
+  read_model kind o0 o1 known resp body head orc h512 = Ok (de, DClean data) ->
+  script_failed body = false.
+Proof.
+  intros EM. unfold script_failed.
+  assert (snd (flatten (script_of body)) <> RFail) as H; [|destruct (snd _); congruence].
+  unfold read_model in EM.
+  destruct kind as [|[[|[]|]|[]|]]; try (now apply client_read_no_fail in EM).
+  all: unfold client_get_blob_range in EM; destruct ((o0 =? 0) && (o1 <? 0)); [now apply client_read_no_fail in EM|].
+  all: destruct (negb _) in EM; [discriminate|].
+  all: destruct (descriptor_from_response _ _ _ _ _) as [de0|] in EM; [|discriminate].
+  all: destruct (new_blob_reader de0 false) as [r| | |] eqn:ER; cbn in EM; try discriminate.
+  all: injection EM as _ Hd; rewrite (drain_clean_flatten _ _ _ _ _ Hd); discriminate.
+Qed.
+
 Lemma corr_read kind o0 o1 known resp body head orc h512 obs :
   model_agrees (CRead kind o0 o1 known resp body head orc h512 obs) = true ->
   obs_ok (CRead kind o0 o1 known resp body head orc h512 obs) = true.
@@ -344,6 +429,7 @@ Proof.
   unfold read_agrees. destruct (read_model _ _ _ _ _ _ _ _ _) as [[de' dr]| | |] eqn:EM; try discriminate.
   destruct dr as [data'| |]; try discriminate. intros H. apply andb_true_iff in H as [H1 H2].
   apply desc_eqb_eq in H1. apply beqb_eq in H2. subst de' data'.
+  rewrite (read_model_no_fail _ _ _ _ _ _ _ _ _ _ _ EM). cbn [negb andb].
   assert (Hver : forall k kn hd, client_read (orc_vd orc) (hashd_of orc h512) k kn resp (script_of body) hd = Ok (de, DClean data) ->
             (blen data =? d_size de) && beqb (hashd_of orc h512 (alg_text (d_digest de)) data) (d_digest de) = true).
   { intros k kn hd Hc. apply verified_ok in Hc as [A B]. rewrite A, B, Z.eqb_refl, beqb_refl. reflexivity. }
@@ -421,8 +507,9 @@ Qed.
 
 Lemma corr_sound c : model_agrees c = true -> obs_ok c = true.
 Proof.
-  destruct c; [apply corr_hist | apply corr_read | apply corr_range | ].
-  cbn. intros H. apply andb_true_iff in H as [_ H]. exact H.
+  destruct c; [apply corr_hist | apply corr_read | apply corr_range | | ].
+  - cbn. intros H. apply andb_true_iff in H as [_ H]. exact H.
+  - cbn. intros H. exact H.
 Qed.
 
 Definition mismatches (cs : list case) : list (N * bool) :=
